@@ -504,7 +504,15 @@ pub fn derive_ex_args(ts: TokenStream) -> Option<String> {
     let mut items = vec![];
     let mut bound: Option<String> = None;
     let mut dump = false;
+    let mut named_seen = false;
     for a in al.0 {
+        // structmeta: "cannot use unnamed parameter after named parameter" - a trait after `bound(..)` / `dump` refuses the list
+        let is_named = matches!(&a, Arg::Flag(n) if n == "dump") || matches!(&a, Arg::List(n, _) if n == "bound");
+        if is_named {
+            named_seen = true;
+        } else if named_seen && matches!(&a, Arg::Flag(_) | Arg::List(..)) {
+            return Some(MALFORMED_ARGS.into());
+        }
         match a {
             Arg::Flag(n) if n == "dump" => {
                 if dump {
